@@ -338,6 +338,21 @@ func (cl *w4Conn) c05Completed(rec *w4Cmd) {
 	if !cl.w.sc.Cfg.C05 || cl.client == nil || rec.Fail || (rec.Kind != "track" && rec.Kind != "subscribe") {
 		return
 	}
+	if rec.Kind == "track" {
+		for _, r := range cl.w.revokes {
+			if !r.affects(cl.spec.User) || (r.RetSeq != 0 && r.RetSeq < rec.Seq) {
+				continue
+			}
+			for _, k := range rec.Keys {
+				for _, rk := range r.Keys {
+					if rk == k {
+						cl.name(k).revoked = true
+						cl.w.s.Probe("revoke_during_track_handling")
+					}
+				}
+			}
+		}
+	}
 	c := cl.client
 	c.mu.RLock()
 	ctx, ok := c.channels[w4Channel]
@@ -361,6 +376,7 @@ const (
 	w4ServerOverlap = " [a command naming the key was sent after the reply to an earlier one but before the server finished handling that one]"
 	w4TrackRaced    = " [closed or unsubscribed while a track command naming the key was being handled]"
 	w4BackendRemoved = " [the backend removed the key during the run]"
+	w4RevokeRaced   = " [a revoke of the key ran while a track command of the connection naming it was being handled]"
 	w4SubRaced      = " [closed or unsubscribed while the subscribe command of the connection was being handled]"
 )
 
@@ -387,6 +403,11 @@ func (cl *w4Conn) c05Class(what string, keys []string) string {
 	for _, k := range keys {
 		if n := cl.named[k]; n != nil && n.raced {
 			return w4TrackRaced
+		}
+	}
+	for _, k := range keys {
+		if n := cl.named[k]; n != nil && n.revoked {
+			return w4RevokeRaced
 		}
 	}
 	for _, k := range keys {
